@@ -22,6 +22,9 @@ def parse_out(text):
             ops.append(cur); cur = None
         elif k == "done":
             pre["done"] = True
+        elif k == "heap":
+            heaps = (cur if cur is not None else pre).setdefault("heaps", [])
+            heaps.append((t[1], int(t[2]), int(t[3]), int(t[4])))
         elif cur is None:
             if k == "permc_get":
                 pre["permc_get"] = [int(x) for x in t[2:]]
@@ -61,10 +64,14 @@ def parse_out(text):
             cur["events"].append((int(t[1]), int(t[2]), int(t[3]), int(t[4]), int(t[5])))
         elif k == "events":
             cur["events_total"] = int(t[2])
+        elif k == "allocs":
+            cur["allocs"] = (int(t[1]), int(t[2]), t[3])
         elif k == "noLU":
             cur["noLU"] = True
     if cur is not None:
         cur["truncated"] = True; ops.append(cur)
+    if pre.get("heaps"):
+        ops.append({"op": "tail", "heaps": pre["heaps"]})
     return ops, pre.get("done", False)
 
 
